@@ -92,6 +92,186 @@ def error_loops(rng, n):
     return out
 
 
+# ------------------------------------------------------------------ sessions: many invocations on one VM
+
+SESSION_LIB = ("x := 0\nacc := 0\nxs := [1, 2, 3]\n"
+               "func t(k, v) { return v }\n"
+               "func f(a) { return a + x }\n"
+               "func deep(n) { if n == 0 { return 1 + [1][5] }; return 1 + deep(n - 1) }\n"
+               "func rec(n) { return rec(n + 1) }\n"
+               "func caught() { return try(func() { return [1, 2, [1][5]] }, 7) }\n"
+               "func defers() { defer func() { acc = acc + 1 }(); return [acc, 1] }\n"
+               "func pend(a, b) { return [a, b, [a, {\"k\": b, \"l\": xs[7]}]] }\n"
+               "func mk(k) { return func(v) { return v + k + x } }\n"
+               "h := mk(2)\n")
+# pieces that end normally (the text @@R@@ is the number of the repetition: data only, never control flow)
+S_OK = ["x = @@R@@; x + 1", "f(@@R@@)", "acc = acc + 1", "t(1, [x, acc])", "xs[0] = @@R@@", "caught()", "x", "func() { return x }()",
+        "switch x { case 1: 5\n default: 6 }", "", "nil", "defers()", "for i := range 3 { acc += i }", "if true { x = 2 }", "h(@@R@@)",
+        "[1, 2, 3].map(func(v) { return v + x })", "try(func() { return 1 + deep(2) }, 0)", "x = 1", "1; 2; 3", "v@@R@@ := @@R@@; v@@R@@ + 1",
+        "func g@@R@@() { return @@R@@ }", "t(1, 2) + t(3, 4)", "acc = 0; for i := 0; i < 40; i++ { acc += try(func() { return [1][5] }, 1) }; acc",
+        "x > 0 ? [1, 2] : [3]", "{\"a\": [x, acc], \"b\": f(1)}", "mk(@@R@@)(1)", "[f(1), caught(), h(1)][2]"]
+S_OK_MOD = ["import m1", "import m2; m2.f(1)", "import m4", "import m3; m3.y[0]"]
+# pieces that end with an error while operands are pending / in a deeper frame / by a recovered Go panic
+S_FAIL = ["[1, 2, [1][5]]", "1 + deep(3)", "t(1, {\"a\": 1, \"b\": nil()})", "rec(0)", "x.nope", "error(\"boom\")", "1 + [1, f(2), xs[9]][0]",
+          "pend(1, 2)", "[1, [2, [3, rec(0)]]]", "f(1, 2, 3)", "x = [1][5]", "for i := range 5 { t(i, [i, i, xs[5 + i]]) }",
+          "switch 1 { case 1: [1, 2, 1 / 0] }", "[1, 2, 3].map(func(v) { return [v, v / 0] })", "defers() + [1]", "h(1, 2)", "mk(1)(nil)"]
+# standalone pieces (they use nothing that an earlier invocation declared)
+S_ALONE_OK = ["1 + 2", "[1, 2, 3][1]", "len(\"abc\")", "w@@R@@ := @@R@@; w@@R@@ * 2", "func() { return [1, 2] }()", "", "try(func() { return [1][5] }, 4)",
+              "for i := range 4 { len([i]) }", "{\"a\": 1}[\"a\"]"]
+S_ALONE_FAIL = ["[1, 2, [1][5]]", "1 + [1, 2, {}[\"k\"]][0]", "nil()", "len(1, [2, [3][4]])", "error(\"boom\")",
+                "[1, 2, func() { return [3, [1][9]] }()]", "func r(n) { return r(n + 1) }\n[1, r(0)]"]
+S_CALLS = [("f", [3]), ("caught", []), ("deep", [2]), ("rec", [0]), ("defers", []), ("t", [1, 2]), ("pend", [1, 2]), ("h", [4]), ("f", []), ("mk", [1])]
+
+
+def session_cases(rng, tier):
+    """REPL-style, embedding-style and mixed sessions: a prelude and a block of invocations that is repeated on the same VM.
+    Most are short (the stack is looked at after every invocation); some run for more invocations than the stack has slots."""
+    nshort, nlong = (90, 14) if tier == "quick" else (1500, 150)
+    longn = 1150 if tier == "quick" else 3300
+    out = [{"id": "sk0", "family": "repl", "pre": [{"api": "RN", "src": "w := 1"}],
+            "block": [{"api": "RN", "src": "w := 2; w * 2"}, {"api": "RN", "src": "1 + 2"}, {"api": "RN", "src": "w"}], "reps": 4}]
+    for i in range(nshort + nlong):
+        fam = ("repl", "repl", "embed", "mixed")[i % 4]
+        nb = 1 + rng.below(4)
+        block = []
+        if fam == "repl":
+            pre = [{"api": "RN", "src": SESSION_LIB + "x + 1"}]
+            for _ in range(nb):
+                c = rng.below(10)
+                if c < 4:
+                    block.append({"api": "RN", "src": rng.choice(S_OK)})
+                elif c < 5:
+                    block.append({"api": "RN", "src": rng.choice(S_OK_MOD)})
+                elif c < 8:
+                    block.append({"api": "RN", "src": rng.choice(S_FAIL)})
+                else:
+                    fn, args = rng.choice(S_CALLS)
+                    block.append({"api": "CL", "fn": fn, "args": args})
+        elif fam == "embed":
+            pre = [{"api": "RC", "src": SESSION_LIB + "x + 1"}]
+            for _ in range(nb):
+                c = rng.below(10)
+                if c < 3:
+                    block.append({"api": "RC", "src": SESSION_LIB + rng.choice(S_OK + S_OK_MOD)})
+                elif c < 6:
+                    block.append({"api": "RC", "src": SESSION_LIB + rng.choice(S_FAIL)})
+                else:
+                    fn, args = rng.choice(S_CALLS)
+                    block.append({"api": "CL", "fn": fn, "args": args})
+        else:
+            pre = [{"api": "RN", "src": "1"}]
+            last_rc = False
+            for _ in range(nb + 1):
+                c = rng.below(10)
+                if c < 3:
+                    block.append({"api": "RN", "src": rng.choice(S_ALONE_OK if rng.chance(1, 2) else S_ALONE_FAIL)})
+                    last_rc = False
+                elif c < 7 or not last_rc:
+                    block.append({"api": "RC", "src": SESSION_LIB + rng.choice(S_OK if rng.chance(1, 2) else S_FAIL)})
+                    last_rc = True
+                else:
+                    fn, args = rng.choice(S_CALLS)
+                    block.append({"api": "CL", "fn": fn, "args": args})
+        if i < nshort:
+            reps = 3 + rng.below(20)
+        else:
+            reps = longn // len(block) + 1
+        out.append({"id": "s%d" % i, "family": fam, "pre": pre, "block": block, "reps": reps})
+    return out
+
+
+def run_sessions(c04obs, sessions, moddir):
+    import json
+    import subprocess
+    from concurrent.futures import ThreadPoolExecutor
+    # long sessions first, spread over the shards
+    order = sorted(range(len(sessions)), key=lambda k: -sessions[k]["reps"] * len(sessions[k]["block"]))
+    nsh = max(1, min(C.NCPU, len(sessions)))
+    shards = [[sessions[k] for k in order[j::nsh]] for j in range(nsh)]
+
+    def one(sh):
+        inp = "".join(json.dumps({k: v for k, v in s.items() if k != "family"}) + "\n" for s in sh)
+        p = subprocess.run([c04obs, "session", moddir], input=inp.encode(), stdout=subprocess.PIPE, stderr=subprocess.PIPE)
+        return p.stdout.decode("utf-8", "replace").splitlines()
+    lines = {}
+    with ThreadPoolExecutor(max_workers=nsh) as ex:
+        for ls in ex.map(one, shards):
+            for l in ls:
+                sid, _, rest = l.partition("\t")
+                lines[sid] = rest
+    return lines
+
+
+def after_compile_reject(obs, k):
+    """Known-finding class `repl-compile-reject-leftover-code` (the C18 finding `compile-rejected-piece-not-rolled-back` seen from
+    the stack): the Run at position k is the first Run after one or more pieces that the COMPILER rejected on the same
+    compiler.  The instructions the rejected piece had already emitted stay in the main code and are executed by this Run
+    together with its own, so it may leave their operands beside its result.  Decided on the observations alone."""
+    j = k - 1
+    seen = False
+    while j >= 0:
+        if obs[j][0] == "RN":
+            if obs[j][1] == "ERR COMPILE":
+                seen = True
+            elif obs[j][1] != "ERR PARSE":
+                break
+        j -= 1
+    return seen
+
+
+def judge_session(s, line):
+    """The property on the observations of one session.  Returns (why, index of the invocation) or None; and the number of
+    invocations judged."""
+    obs = [o.split(":") for o in line.split(";")] if line else []
+    npre, nb = len(s["pre"]), len(s["block"])
+    if len(obs) != npre + nb * s["reps"] or any(len(o) != 5 for o in obs):
+        return ("the harness gave no (complete) answer for this session: %r" % line[:200], -1), 0
+    if any("TIMEOUT" in o[1] or "context" in o[1] for o in obs):
+        return None, 0          # a wall-clock bound was hit: not an observation
+    judged = 0
+    for k, (api, outcome, entry, mx, sp) in enumerate(obs):
+        entry, mx, sp = int(entry), int(mx), int(sp)
+        if outcome.startswith("HARNESS") or outcome in ("ERR PARSE", "ERR COMPILE"):
+            continue            # nothing was invoked
+        if api == "RN" and after_compile_reject(obs, k):
+            continue            # known finding (see after_compile_reject); counted by the caller
+        judged += 1
+        if "GOPANIC" in outcome:
+            return ("a Go panic escaped the invocation: " + outcome, k), judged
+        if entry > 0:
+            return ("invocation %d (%s) began with %d operands of earlier invocations on the stack" % (k, api, entry), k), judged
+        if outcome == "OK":
+            if api in ("RN", "RC") and sp != 0 and not (entry < 0 and sp == -1):
+                return ("invocation %d (%s) ended normally and left %d values on the stack instead of exactly its result" % (k, api, sp + 1), k), judged
+            if api == "CL" and sp > 0:
+                return ("invocation %d (Call) returned its result and left %d values on the stack" % (k, sp + 1), k), judged
+        if k >= npre + 2 * nb:
+            # the block behaves the same in every repetition: same outcome class, same stack use as in repetition 1
+            ref = obs[k - ((k - npre) // nb - 1) * nb]
+            if ref[1] != outcome:
+                return ("invocation %d (%s, repetition %d of the block) ended with %s; the same invocation ended with %s in repetition 1: "
+                        "the number of earlier invocations alone changed the outcome" % (k, api, (k - npre) // nb, outcome, ref[1]), k), judged
+            if int(ref[3]) != mx:
+                return ("invocation %d (%s, repetition %d of the block) used %d stack slots; the same invocation used %s in repetition 1" % (
+                    k, api, (k - npre) // nb, mx, ref[3]), k), judged
+    return None, judged
+
+
+def load_known_all():
+    """open known findings of this property: the shared file plus the per-agent files known_findings.<agent>.jsonl"""
+    import glob
+    import json
+    out = list(C.load_known(PROP))
+    for p in sorted(glob.glob(os.path.join(C.VERIF, "known_findings.*.jsonl"))):
+        for line in open(p):
+            line = line.strip()
+            if line and not line.startswith("#"):
+                j = json.loads(line)
+                if j.get("property") == PROP and not j.get("fixed"):
+                    out.append(j)
+    return out
+
+
 def run(res):
     tier = res.tier
     nprog = 3000 if tier == "quick" else 60000
@@ -210,6 +390,8 @@ def run(res):
         e_small = outcome_run([p.replace("@@N@@", "3") for p in eloops])
         e_big = outcome_run([p.replace("@@N@@", "3000") for p in eloops])
         res.eloops = (eloops, e_small, e_big)
+        sessions = session_cases(rng, tier)
+        res.sessions = (sessions, run_sessions(c04obs, sessions, moddir))
         st_small = core.stages(small, tools, os.path.join(work, "ls"), want=("eval",))
         st_big = core.stages(big, tools, os.path.join(work, "lb"), want=("eval",))
         def scale_eval(sources):
@@ -323,18 +505,47 @@ def _decide(res, allsrc, nwit, st, cert, trace, loops, st_small, st_big, stats, 
             oracle.append({"kind": "oracle-violation", "stage": "error-catching / importing loop", "source": p.replace("@@N@@", "3000"),
                            "outcome_3_iterations": a[:200], "outcome_3000_iterations": b[:300], "why": why})
     cov["error_loops"] = {"generated": len(eloops), "run": eloop_run}
+    sessions, slines = getattr(res, "sessions", ([], {}))
+    sess_inv = 0
+    sess_bad = 0
+    fam_hist = {}
+    known_ids = set(kf.get("id") for kf in load_known_all())
+    for s in sessions:
+        bad, judged = judge_session(s, slines.get(s["id"], ""))
+        sobs = [o.split(":") for o in slines.get(s["id"], "").split(";")]
+        if "repl-compile-reject-leftover-code" in known_ids and not bad and any(
+                len(o) == 5 and o[0] == "RN" and o[1] == "OK" and o[4] != "0" and after_compile_reject(sobs, k) for k, o in enumerate(sobs)):
+            res.known_finding("a Run that follows a piece rejected by the compiler also executes the instructions that piece had already "
+                              "emitted (they are not rolled back: C18's compile-rejected-piece-not-rolled-back) and ends with their operands "
+                              "beside its result, e.g. REPL inputs `w := 1`, `w := 2; w * 2`, `1 + 2`: the third Run leaves 2 values")
+        sess_inv += judged
+        fam_hist[s["family"]] = fam_hist.get(s["family"], 0) + judged
+        if bad:
+            sess_bad += 1
+            why, k = bad
+            obs = slines.get(s["id"], "").split(";")
+            oracle.append({"kind": "oracle-violation", "stage": "session of invocations on one VM", "session": s, "invocation": k,
+                           "observations_around": obs[max(0, k - 3):k + 2] if k >= 0 else obs[:5],
+                           "observation_format": "api:outcome:operands before the first instruction:most operands:stack pointer afterwards",
+                           "why": why})
+    cov["sessions"] = {"sessions": len(sessions), "invocations_judged": sess_inv, "per_family": fam_hist, "violating": sess_bad,
+                       "longest": max([len(s["pre"]) + len(s["block"]) * s["reps"] for s in sessions] or [0])}
     if len(samples) < 8 and loops:
         samples.append({"scaled_loop_program": loops[0].replace("@@N@@", "3000"), "outcome_3": st_small["eval_go"][0][:120],
                         "outcome_3000": st_big["eval_go"][0][:120]})
 
-    cov["evaluations"] = len(allsrc) + 2 * len(loops) + 2 * len(getattr(res, "eloops", ([],))[0])
+    cov["evaluations"] = len(allsrc) + 2 * len(loops) + 2 * len(getattr(res, "eloops", ([],))[0]) + sess_inv
     cov["distinct_nontrivial"] = len(distinct_codes)
     cov["rule"] = ("seeded grammar-directed programs (every loop form x switch x if x break/continue/return x expression "
                    "contexts) plus the harvested corpus; each is compiled by the real compiler, every code object is run "
                    "through the extracted proved-sound certificate checker (all control paths), executed on the real VM with "
                    "the verif trace hook (observed (code, ip, height) must equal the certified label), and loop bodies are run "
                    "with bounds 3 and 3000 (> stack capacity 1024); loops that catch errors raised under pending operands (try), fail at several call "
-                   "depths and import modules are run the same way, and every successful run must end with exactly its result on the stack. Non-trivial = distinct compiled programs.")
+                   "depths and import modules are run the same way, and every successful run must end with exactly its result on the stack; "
+                   "sessions (REPL protocol Run / RunCode / Call, mixed; invocations that end normally, with an error under pending operands, in a deeper "
+                   "frame or by a recovered panic) repeat a block of invocations on ONE VM, some for more invocations than the stack has slots: every "
+                   "invocation must begin on an empty stack, a normal end must leave exactly the result (Call: nothing), and outcome and stack use "
+                   "of the block must not change with the repetition. Non-trivial = distinct compiled programs.")
     cov["samples"] = samples
     cov["programs_certified"] = certified
     cov["programs_rejected"] = rejected
@@ -387,4 +598,23 @@ def _decide(res, allsrc, nwit, st, cert, trace, loops, st_small, st_big, stats, 
 def replay(data):
     import json
     print(json.dumps(data, indent=1)[:3000])
-    return 0
+    s = data.get("session")
+    if not s:
+        return 0
+    ov, err = C.make_overlay()
+    exe, err2 = C.go_build("c04obs", overlay=ov) if ov else (None, err)
+    if not exe:
+        print(err or err2)
+        return 2
+    os.makedirs(C.WORK, exist_ok=True)
+    work = tempfile.mkdtemp(prefix="c04r-", dir=C.WORK)
+    try:
+        for name, text in MODULES.items():
+            with open(os.path.join(work, name + ".risor"), "w") as mf:
+                mf.write(text)
+        line = run_sessions(exe, [s], work).get(s["id"], "")
+    finally:
+        shutil.rmtree(work, ignore_errors=True)
+    bad, judged = judge_session(s, line)
+    print("implementation now: %d invocations judged; %s" % (judged, bad[0] if bad else "the session obeys the property"))
+    return 1 if bad else 0
